@@ -353,6 +353,7 @@ def run_impl(fx, rng, nops, script=None):
         return ops, [dict(op='observe', obs=None, exc=repr(e), desc='observe (everything selected)')], {0: 'all'}
     acquired = []          # (kind, indexer, shape, n_selects_so_far)
     nsel = 0
+    pending = []
     atoms = {0: 'all'}
     step = 0
     while step < nops:
@@ -361,15 +362,35 @@ def run_impl(fx, rng, nops, script=None):
             if step > len(script):
                 break
             what = script[step - 1]
+        elif pending:
+            what = pending.pop(0)
         else:
             r = rng.random()
+            if r > 0.93:
+                # snapshot probe: change the flag / weight selection, take the indexer, change it again, read
+                k = rng.choice(['flags', 'flags', 'weights'])
+
+                def fw_call():
+                    v, w, f = c02.gen_criterion(rng, fx.ob, k)
+                    return [(k, v, w, f)]
+                pending.extend([['select', fw_call()], ['acquire', k, rng.random() < 0.6], ['select', fw_call()],
+                                ['index_last']])
+                continue
             what = ('acquire' if (not acquired and r < 0.5) else
                     'select' if r < 0.34 else 'acquire' if r < 0.52 else 'index' if r < 0.86 else 'observe')
             if what == 'index' and not acquired:
                 what = 'select'
             what = [what]
         if what[0] == 'select':
-            call = what[1] if len(what) > 1 else c02.gen_call(rng, fx.ob)
+            if len(what) > 1:
+                call = what[1]
+            elif rng.random() < 0.22:
+                # a call that changes only the flag / weight selection (C16: leaves the three masks alone)
+                k = rng.choice(['flags', 'flags', 'weights'])
+                v, w, f = c02.gen_criterion(rng, fx.ob, k)
+                call = [(k, v, w, f)]
+            else:
+                call = c02.gen_call(rng, fx.ob)
             for (k, v, w, f) in call:
                 if k in ('weights', 'flags'):
                     atoms[w[1]] = v
@@ -408,9 +429,13 @@ def run_impl(fx, rng, nops, script=None):
             acquired.append((kind, x, shape, nsel))
             if exc is not None:
                 break
-        elif what[0] == 'index':
+        elif what[0] in ('index', 'index_last'):
             if len(what) > 1:
                 idn, (py, wire, forms, basic) = what[1], what[2]
+            elif what[0] == 'index_last':
+                idn = len(acquired) - 1
+                kind, x, shape, _ = acquired[idn]
+                py, wire, forms, basic = gen_ix2(rng, shape, rich_fmt)
             else:
                 # prefer indexers that have seen a select() since their acquisition
                 stale = [i for i, a in enumerate(acquired) if a[3] < nsel]
@@ -711,8 +736,8 @@ def open_witness(ctx, w):
 
 def fixture_plan(ctx):
     """(format, number of data sets, histories per data set)."""
-    nf = ctx.scale(4, 12)
-    nh = ctx.scale(18, 60)
+    nf = ctx.scale(5, 14)
+    nh = ctx.scale(24, 60)
     return [(fmt, nf, nh) for fmt in FMTS]
 
 
